@@ -271,6 +271,17 @@ impl<T: Sc, M: Mdl<T>> AnyProb<T, M> {
         }
     }
 
+    /// `into_parallel()`; the flavour of the result is whatever the library's return type
+    /// says (at the pinned commit that is the *sequential* type), absorbed by `IntoAny`
+    pub fn into_parallel(self) -> Self {
+        match self {
+            AnyProb::SS(p) => p.into_parallel().into_any(),
+            AnyProb::SP(p) => p.into_parallel().into_any(),
+            AnyProb::MS(p) => p.into_parallel().into_any(),
+            AnyProb::MP(p) => p.into_parallel().into_any(),
+        }
+    }
+
     pub fn fit(self, cfg: &OptCfg) -> FitSummary<T, M> {
         let lm = make_lm::<T>(cfg);
         match self {
@@ -441,5 +452,30 @@ where
             from,
         );
         j
+    }
+}
+
+/// wraps a concrete problem type into the flavour enum, whichever of the four it is
+pub trait IntoAny<T: Sc, M: Mdl<T>> {
+    fn into_any(self) -> AnyProb<T, M>;
+}
+impl<T: Sc, M: Mdl<T>> IntoAny<T, M> for LevMarProblem<M, false, false> {
+    fn into_any(self) -> AnyProb<T, M> {
+        AnyProb::SS(self)
+    }
+}
+impl<T: Sc, M: Mdl<T>> IntoAny<T, M> for LevMarProblem<M, false, true> {
+    fn into_any(self) -> AnyProb<T, M> {
+        AnyProb::SP(self)
+    }
+}
+impl<T: Sc, M: Mdl<T>> IntoAny<T, M> for LevMarProblem<M, true, false> {
+    fn into_any(self) -> AnyProb<T, M> {
+        AnyProb::MS(self)
+    }
+}
+impl<T: Sc, M: Mdl<T>> IntoAny<T, M> for LevMarProblem<M, true, true> {
+    fn into_any(self) -> AnyProb<T, M> {
+        AnyProb::MP(self)
     }
 }
